@@ -93,7 +93,11 @@ func (s *Set[T]) forceSetupOrdered() {
 	fun.Invariant.Ok(s.list == nil)
 	s.list = &List[T]{}
 	for item := range s.hash {
-		s.list.PushBack(item)
+		// index the new element, so that deleting the item
+		// later also removes it from the list.
+		elem := NewElement(item)
+		s.list.Back().Append(elem)
+		s.hash[item] = elem
 	}
 }
 
